@@ -257,6 +257,12 @@ func runC09(r *vk.Run) {
 	// magnitude (.05, .5, .005 ...).
 	r.Phase("daemon", r.N(600, 100000), func(c *vk.Case) {
 		rng := c.Rng
+		// the samples' dates are data: fixtures dated after the present of whoever runs the query (a daemon whose
+		// clock runs ahead, a log written for 2100) are windows like any other
+		metricT0 := vk.Pick(rng, []int64{metricT0, metricT0, 4102444800e9, 7258118400e9})
+		if metricT0 > 4e18 {
+			c.Count("daemon_cases_dated_2100_or_later", 1)
+		}
 		cs := CSpec{ID: "id0", Name: "/c0", Image: "img", State: "running", Labels: map[string]string{}}
 		n := rng.Range(10, 60)
 		for i := 0; i < n; i++ {
@@ -311,11 +317,13 @@ func runC09(r *vk.Run) {
 		}
 	})
 	r.Require("daemon_window_comparisons", 300)
+	r.Require("daemon_cases_dated_2100_or_later", 100)
 	// several containers on the Docker storage, the first-listed one starting LATER than the others:
 	// per container, count_over_time at T is the number of its records in [T-r, T], recounted from the
 	// frames (the merge of the containers' streams feeds the windows in time order)
 	r.Phase("containers", r.N(400, 60000), func(c *vk.Case) {
 		rng := c.Rng
+		metricT0 := vk.Pick(rng, []int64{metricT0, metricT0, 4102444800e9, 7258118400e9})
 		n := rng.Range(2, 4)
 		var inv []CSpec
 		for i := 0; i < n; i++ {
@@ -341,9 +349,10 @@ func runC09(r *vk.Run) {
 		start := metricT0 + int64(rng.Range(1, 4))*1e9
 		p := EvalP{Start: start, End: start + int64(rng.Range(3, 10))*1e9, Step: time.Duration(rng.Range(1, 2)) * time.Second}
 		fd := newFakeDocker(inv)
+		fd.FilterByTime = rng.Bool() // a daemon that serves exactly the requested window, or the whole log
 		res, err := evalQuery(dockerQuerier(fd), q, p)
 		c.Eval(1)
-		det := map[string]any{"query": q, "params": p, "inventory": inv, "result": res}
+		det := map[string]any{"query": q, "params": p, "inventory": inv, "result": res, "daemon_honours_window": fd.FilterByTime}
 		if err != nil {
 			c.Fail("", "query failed: "+q+": "+err.Error(), det)
 			return
